@@ -283,3 +283,13 @@ def run(chk, prog):
             chk.decide(R3, chk.key(R3, 'read', T), T in built, 'the reader constructs ' + T,
                        'the reader never constructs runtime object kind %s although the writer can emit it' % T,
                        rdo.loc(0))
+
+    # ---- each flow is saved once
+    RF_ = 'C02.saved-flows-distinct'
+    chk.rule(RF_, 'StoryState::write_json writes the current flow and then every parked flow under its name into one '
+             'object; the two never collide only if the parked map never holds the current flow. Loading must therefore '
+             'not leave the flow it makes current parked as well (same clause as C10.parked-map-has-no-current-flow): a '
+             'stale parked copy would overwrite the live flow in every later save.')
+    from rules.c10 import check_load_parks_no_current_flow
+    check_load_parks_no_current_flow(chk, prog, tr, RF_)
+
